@@ -105,6 +105,39 @@ def histories():
     for op in ("nothing", "subject_to", "method", "add_objective"):
         H["set_value-of-a-concatenation-after-transcription-then-%s" % op] = concat_value_after_then(op)
 
+    def alg_guess_survives(op):
+        """a guess for an ALGEBRAIC variable, a transcription, a guess for something else on the transcribed problem, then a
+        re-transcription: the algebraic guess is still part of the specification"""
+        def f(m):
+            from rockit import Ocp, MultipleShooting, SingleShooting, DirectCollocation
+            def build(extra):
+                o = Ocp(T=1.0)
+                x = o.state(); z = o.algebraic(); u = o.control()
+                o.set_der(x, ufun("fd", 1, [x, z, u]))
+                o.add_alg(ufun("ga", 1, [x, z, u]))
+                o.subject_to(o.at_t0(x) == 0)
+                o.add_objective(o.at_tf(ufun("md", 1, [x])))
+                o.set_initial(z, unknown("gz", 1, 1))
+                o.solver("ipopt")
+                Mth = dict(MS=MultipleShooting, SS=SingleShooting, DC=DirectCollocation)[m]
+                o.method(Mth(N=2, M=1, intg="idas") if m != "DC" else Mth(N=2, M=1, degree=2))
+                if extra:
+                    o.set_initial(u, unknown("gu", 1, 1))
+                return o, dict(x=x, z=z, u=u)
+            a, s = build(False)
+            a._transcribed
+            a.set_initial(s["u"], unknown("gu", 1, 1))
+            b, t = build(True)
+            for o, sy in ((a, s), (b, t)):
+                if op == "subject_to":
+                    o.subject_to(ufun("c9", 1, [sy["x"]]) <= 3)
+                elif op == "add_objective":
+                    o.add_objective(o.at_tf(ufun("m9", 1, [sy["x"]])))
+            return a, b
+        return f
+    for op in ("subject_to", "add_objective"):
+        H["algebraic-guess-then-another-guess-after-transcription-then-%s" % op] = alg_guess_survives(op)
+
     def solver_after(m):
         a, s = _base(m, pval=pv()); a._transcribed; a.solver("sqpmethod", {"qpsol": "qrqp"})
         b, t = _base(m, pval=pv(), solver=None); b.solver("sqpmethod", {"qpsol": "qrqp"})
